@@ -1,6 +1,7 @@
 import TongoProofs.Lemmas.MerkleCompose
 import TongoProofs.Lemmas.MerkleHashmap
 import TongoProofs.C05
+import TongoProofs.Lemmas.BitStringFift
 import TongoProofs.C01
 /-! Property C18 — generated Merkle proofs commit to the original tree and reveal the value.
 
@@ -72,16 +73,13 @@ theorem proof_verifies (H : List UInt8 → List UInt8) (hH : H32 H) (P : List Na
   obtain ⟨ci, e, _, _, _, hm⟩ := (good_cell H _ (wfExotic_wfSizes _ hwc)).1 hdc
   exact ⟨ci, e, by rw [(hm 0 (by omega)).1, e1], by rw [(hm 0 (by omega)).2, e2]⟩
 
-/-- **The proof is a bag of cells whose root is a Merkle-proof cell** (end to end, composition with C01/C07, agent
-boc's writer and reader). Let `createProof` return `proof`, and let `t` be the ORDER in which `SerializeBoc` writes
-the proof's cells: a valid layout whose row 0 unfolds to `proof`. (This is the remaining premise about the writer:
-the order computed by importCell/reorderCells is not modelled — `C01.order_valid`; it is checked on every generated
-proof by parsing the real bytes.) Then the bytes `serializeBoc` writes for `CreateProof`'s option set (no index, no
+/-- For ANY given layout `t` of the proof (a valid table whose row 0 unfolds to `proof`) — not necessarily the order
+Go's writer chooses; `proof_boc` below is about that order: the bytes `serializeBoc` writes for `CreateProof`'s option set (no index, no
 CRC, no cache bits) parse back, with the repaired reader, to exactly that table with root 0; row 0 is a
 Merkle-proof cell (type 3, level mask 0, one ref) whose data is `03 ++ hash₀(t) ++ depth₀(t)`; the root unfolds to
 `proof`; and hashing the parse result (`Table.infos`, what an independent verifier runs) gives the root the hashes of
 the definition. -/
-theorem proof_boc (H : List UInt8 → List UInt8) (hH : H32 H) (P : List Nat → Bool) (root proof : Cell)
+theorem proof_boc_layout (H : List UInt8 → List UInt8) (hH : H32 H) (P : List Nat → Bool) (root proof : Cell)
     (hp : plain root = true) (h : createProof H P root = .ok proof)
     (t : Table) (hlay : Boc.ValidLayout t [0]) (hunf : Table.unfold t (t.size + 1) 0 = some proof)
     (hn : t.size < 16777216) (hsz : 1 ≤ t.size)
@@ -101,6 +99,59 @@ theorem proof_boc (H : List UInt8 → List UInt8) (hH : H32 H) (P : List Nat →
     exact ⟨row, child, r1, r2, r3, by simpa using r5, r4, hc, e1, e2⟩
   · obtain ⟨info, e, hm, _⟩ := C02core H proof h3 h4
     exact ⟨info, by rw [infos_refines H t _ 0 proof hunf, e], hm⟩
+
+/-- **The proof is a bag of cells whose root is a Merkle-proof cell** (end to end through the model of the WHOLE Go
+writer: `C01.roundtrip_go_writer`, i.e. importCell/reorderCells' order — `C01.order_valid` — then the header
+arithmetic of serializeBoc, then the repaired reader of C07). Let `createProof` return `proof`. Let `t` be any
+presentation of the proof's cells as the writer receives them (the in-memory DAG: a valid table whose row 0 unfolds to
+`proof`; shared or duplicated rows allowed) and `key` the writer's de-duplication key (Go: the hex representation
+hash), identifying rows exactly up to structural equality (`KeyInjOn`: collision-freedom of the hash on the rows of
+`t`). Then the writer model succeeds with `CreateProof`'s option set (no index, CRC or cache bits), and — under the
+size conditions of `roundtrip_go_writer`, always true for a proof that fits a Go slice — its bytes parse back to the
+ordered table with ONE root, that root unfolds to `proof`, its row is a Merkle-proof cell (type 3, mask 0, one ref)
+with data `03 ++ hash₀(root) ++ depth₀(root)`, and hashing the parse result (`Table.infos`) gives it the hashes of the
+definition. Remaining premises: that a presentation `t` exists for the cells in memory (agent boc's `roundtrip_cell`
+discharges it with `Cell.toTable`) and `KeyInjOn`. -/
+theorem proof_boc {K : Type} [BEq K] [Hashable K] [LawfulBEq K]
+    (H : List UInt8 → List UInt8) (hH : H32 H) (P : List Nat → Bool) (root proof : Cell)
+    (hp : plain root = true) (h : createProof H P root = .ok proof)
+    (t : Table) (key : Nat → Option K) (hlay : Boc.ValidLayout t [0])
+    (hunf : Table.unfold t (t.size + 1) 0 = some proof) (hk : Boc.Order.KeyInjOn t key) :
+    ∃ o bs, Boc.Order.serializeBocModel t key [0] false false false = .ok bs ∧ Boc.Order.OrderValid t [0] o ∧
+      (o.table.size < 16777216 → 1 ≤ o.table.size → bs.length < Boc.two63 →
+        ∃ r row child, Boc.parseBoc bs = .ok (o.table, [r]) ∧
+          Table.unfold o.table (o.table.size + 1) r = some proof ∧
+          o.table[r]? = some row ∧ row.ty = tyMerkleProof ∧ row.mask = 0 ∧ row.refs.length = 1 ∧
+          row.bits = Bits.bytesToBits ([3] ++ Spec.hashAt H root 0 ++ be16 (Spec.depthAt root 0)) ∧
+          proof = proofCell (Spec.hashAt H root 0) (Spec.depthAt root 0) child ∧
+          Spec.hashAt H child 0 = Spec.hashAt H root 0 ∧ Spec.depthAt child 0 = Spec.depthAt root 0 ∧
+          ∃ info, (Table.infos H o.table)[r]? = some (.ok info) ∧
+            ∀ l, l ≤ 4 → info.hashAt l = .ok (Spec.hashAt H proof l) ∧ info.depthAt l = .ok (Spec.depthAt proof l)) := by
+  obtain ⟨_, h2, h3, h4⟩ := createProof_ok H hH P root hp h
+  obtain ⟨child, hc, e1, e2, _⟩ := proof_verifies H hH P root proof hp h
+  obtain ⟨o, bs, _, hser, hval, hparse⟩ := C01.roundtrip_go_writer t [0] key false false false hlay hk
+  refine ⟨o, bs, hser, hval, ?_⟩
+  intro hn hsz hlen
+  have hroots := hval.roots_eq
+  simp only [List.map_cons, List.map_nil, hunf] at hroots
+  -- exactly one root position
+  obtain ⟨r, hr⟩ : ∃ r, o.roots = [r] := by
+    cases hro : o.roots with
+    | nil => rw [hro] at hroots; simp at hroots
+    | cons r rest =>
+      cases rest with
+      | nil => exact ⟨r, rfl⟩
+      | cons r2 rest2 => rw [hro] at hroots; simp at hroots
+  rw [hr] at hroots
+  simp only [List.map_cons, List.map_nil, List.cons.injEq, and_true] at hroots
+  have hp' := hparse hn (by simp) (by simpa using hsz) hlen
+  rw [hr] at hp'
+  have hunf' := hroots
+  rw [hc] at hunf'
+  obtain ⟨row, r1, r2, r3, r4, r5⟩ := unfold_root_row o.table _ r _ _ _ _ hunf'
+  obtain ⟨info, e, hm, _⟩ := C02core H proof h3 h4
+  exact ⟨r, row, child, hp', hroots, r1, r2, r3, by simpa using r5, r4, hc, e1, e2, info,
+    by rw [infos_refines H o.table _ r proof hroots, e], hm⟩
 
 /-- **No panic, and exactly when a proof is produced.** On supported trees `CreateProof` never panics for any
 prune set; it fails only with the depth error (the tree, or the proof cell on top of it, is too deep). -/
@@ -340,6 +391,31 @@ theorem absent_key_errors_dict {V : Type} (H : List UInt8 → List UInt8) (hH : 
   obtain ⟨val, _, hget, _⟩ := value_revealed_dict H hH C pay n hn t hv hdec valueBits key v proof hk hp hr
   rw [habs] at hget
   cases hget
+
+/-- **The key comparison of `ProveKeyInHashmap` is bit equality.** The Go code compares
+`constructedKey.ToFiftHex() != key.ToFiftHex()`; the model (`proveKey`) compares the bit lists. For bit strings
+satisfying the representation invariant of C06 the two are the same test: the Fift hex texts are equal exactly when
+the written bits are (`ToFiftHex` is injective — `fromFiftHex` inverts it; agent bits' lemmas). -/
+theorem fifthex_key_compare (a b : BitString) (ha : BitString.Inv a) (hb : BitString.Inv b) :
+    BitString.toFiftHex a = BitString.toFiftHex b ↔ BitString.abs a = BitString.abs b := by
+  rw [BitString.toFiftHex_eq a ha, BitString.toFiftHex_eq b hb]
+  constructor
+  · intro h
+    injection h with h
+    obtain ⟨sa, p1, q1, _⟩ := BitString.fromFiftHex_fiftSpec (BitString.abs a)
+    obtain ⟨sb, p2, q2, _⟩ := BitString.fromFiftHex_fiftSpec (BitString.abs b)
+    rw [h] at p1
+    rw [p1] at p2
+    injection p2 with p2
+    rw [← q1, ← q2, p2]
+  · intro h; rw [h]
+
+/-- **The loop's fuel is sufficient**: `proveKey` gives the walk `key.length + 2` units of fuel and every iteration
+consumes at least one key bit, so the artificial `err "fuel"` never occurs — the errors in `absent_key_errors` and the
+"no panic" of `prove_no_panic` are genuine outcomes of the modelled Go code, not fuel exhaustion. -/
+theorem walk_fuel_sufficient (root : Cell) (key : List Bool) :
+    walk key.length (key.length + 2) key.length root [] key [] [] ≠ .err "fuel" :=
+  walk_fuel key.length (key.length + 2) key.length root [] key [] [] (by omega)
 
 /-- **`ProveKeyInHashmap` does not panic** on supported trees whose cells have zero or at least two refs (leaves and
 forks of a dictionary): for every key, of any width. (On a cell with exactly one ref the walk can index
